@@ -13,30 +13,32 @@ import (
 // phi and the bound. The counter may only be advanced by +1 on every latch.
 func countedLoop(l *Loop) (ctr *ssa.Phi, bound ssa.Value, ok bool) {
 	iff, isIf := l.Header.Instrs[len(l.Header.Instrs)-1].(*ssa.If)
-	if !isIf {
+	if !isIf || len(l.Header.Succs) != 2 {
 		return nil, nil, false
 	}
-	cmp, isBin := iff.Cond.(*ssa.BinOp)
-	if !isBin || cmp.Op != token.LSS {
+	// one successor of the header test stays in the loop, the other leaves it; the loop is continued exactly
+	// when counter < bound, however the comparison is spelled (`n > i`, `!(i >= n)`, successors exchanged)
+	var stay bool
+	switch {
+	case l.Blocks[l.Header.Succs[0]] && !l.Blocks[l.Header.Succs[1]]:
+		stay = true
+	case !l.Blocks[l.Header.Succs[0]] && l.Blocks[l.Header.Succs[1]]:
+		stay = false
+	default:
 		return nil, nil, false
 	}
-	ph, isPhi := cmp.X.(*ssa.Phi)
+	x, y, isLess := c13LessThan(iff.Cond, stay)
+	if !isLess {
+		return nil, nil, false
+	}
+	ph, isPhi := x.(*ssa.Phi)
 	if !isPhi || ph.Block() != l.Header {
-		return nil, nil, false
-	}
-	// the true edge stays in the loop, the false edge leaves it
-	if !l.Blocks[l.Header.Succs[0]] || l.Blocks[l.Header.Succs[1]] {
 		return nil, nil, false
 	}
 	for i, e := range ph.Edges {
 		pred := l.Header.Preds[i]
 		if l.Blocks[pred] {
-			b, isB := e.(*ssa.BinOp)
-			if !isB || b.Op != token.ADD || b.X != ssa.Value(ph) {
-				return nil, nil, false
-			}
-			c, isC := b.Y.(*ssa.Const)
-			if !isC || c.Value == nil || c.Value.Kind() != constant.Int || c.Int64() != 1 {
+			if !c13IsPlusOne(e, ph) {
 				return nil, nil, false
 			}
 		} else {
@@ -46,7 +48,10 @@ func countedLoop(l *Loop) (ctr *ssa.Phi, bound ssa.Value, ok bool) {
 			}
 		}
 	}
-	return ph, cmp.Y, true
+	if y == ssa.Value(ph) {
+		return nil, nil, false
+	}
+	return ph, y, true
 }
 
 // c12StepLoop decides that fn performs `bound` calls of step: the only call of
@@ -106,17 +111,17 @@ func (r *Run) c12StepLoop(fn, step *ssa.Function, boundParam int, relaxedExit bo
 				continue
 			}
 			outcome := si == 0
-			switch c := iff.Cond.(type) {
-			case *ssa.BinOp:
-				// err != nil
-				if c.Op == token.NEQ && isExtract(c.X, 1) && outcome {
+			// err != nil holds on the exit edge (any spelling: `nil != err`, `!(err == nil)`, successors exchanged)
+			if GuardNilness(Guard{Cond: iff.Cond, True: outcome, At: b}, func(v ssa.Value) bool { return isExtract(v, 1) }) == -1 {
+				continue
+			}
+			if x, y, op, isCmp := CmpFact(iff.Cond, outcome); isCmp && op == token.NEQ && isExtract(y, 1) {
+				if k, isK := x.(*ssa.Const); isK && k.Value == nil {
 					continue
 				}
-				if c.Op == token.EQL && isExtract(c.X, 1) && !outcome {
-					continue
-				}
-			case *ssa.Extract:
-				if relaxedExit && isExtract(c, 0) && outcome {
+			}
+			if relaxedExit {
+				if c, neg := c13StripNot(iff.Cond); isExtract(c, 0) && outcome != neg {
 					continue
 				}
 			}
@@ -141,9 +146,11 @@ func (r *Run) c12StepLoop(fn, step *ssa.Function, boundParam int, relaxedExit bo
 		}
 		zero := false
 		for _, g := range Guards(b) {
-			gt := tm.Of(g.Cond)
-			if gt.Op == "bin" && gt.Name == "==" && g.True && isParamIdx(gt.Args[0], boundParam) && gt.Args[1].String() == "0" {
-				zero = true
+			// steps == 0 holds here (`0 == steps`, `!(steps != 0)` not taken, ...)
+			if x, y, op, isCmp := CmpFact(g.Cond, g.True); isCmp && op == token.EQL && isParamIdx(tm.Of(x), boundParam) {
+				if k, isK := constInt(y); isK && k == 0 {
+					zero = true
+				}
 			}
 		}
 		if !zero {
@@ -384,6 +391,44 @@ func (r *Run) c12RelaxFlag() {
 		}
 	}
 	r.Check(okRet, "relaxed-flag.returned", pos, "forwardStep returns the accumulated flag", "forwardStep does not return the accumulated relaxed flag")
+
+	// A loop that moves the new activations into neuronSignals without carrying the flag reports "relaxed" whatever
+	// changed. That is right only when no tolerance was asked for: such a loop must lie under
+	// maxAllowedSignalDelta <= 0. Taken for a positive tolerance it makes Relax stop after its first step.
+	okArm, whyArm := true, ""
+	for _, l := range loops {
+		if l == loop {
+			continue
+		}
+		var commit *ssa.Store
+		for b := range l.Blocks {
+			if il := InnermostLoop(loops, b); il == nil || il.Header != l.Header {
+				continue
+			}
+			for _, in := range b.Instrs {
+				if st, ok := in.(*ssa.Store); ok {
+					if ia, ok := st.Addr.(*ssa.IndexAddr); ok && tm.Of(ia.X).String() == "recv.neuronSignals" {
+						commit = st
+					}
+				}
+			}
+		}
+		if commit == nil {
+			continue
+		}
+		under := false
+		for _, g := range Guards(l.Header) {
+			if x, y, op, ok := CmpFact(g.Cond, g.True); ok && isParamIdx(tm.Of(x), 1) {
+				if k, isK := constInt(y); isK && k == 0 && (op == token.LEQ || op == token.LSS || op == token.EQL) {
+					under = true
+				}
+			}
+		}
+		if !under {
+			okArm, whyArm = false, "the loop at "+p.Pos(commit.Pos())+" stores the new signals without testing their change and is not confined to maxAllowedSignalDelta <= 0"
+		}
+	}
+	r.Check(okArm, "relaxed-flag.untested-arm", pos, "signals are committed without the change test only under maxAllowedSignalDelta <= 0", whyArm+": with a positive tolerance forwardStep then reports a relaxed network after any step and Relax returns the signals of its first step")
 }
 
 // c12ZeroConst: v is the numeric constant 0 (of any numeric type).
